@@ -259,7 +259,7 @@ class Exec:
 
     def new_sym(self, base, kind=REAL):
         self.fresh += 1
-        return T.sym("%s!%d" % (base, self.fresh), kind)
+        return T.sym("%s!%d" % (base, self.fresh), kind, strict=(kind in INTS))
 
     # ---- calls ----------------------------------------------------------------------------
     def call(self, ty, name, recv, args):
@@ -277,6 +277,15 @@ class Exec:
         except ReturnSig as r:
             v = r.v
         return v
+
+    def exec_stmts(self, stmts, frame):
+        """Execute a slice of a function body (stage-wise contracts): returns the frame."""
+        try:
+            for s in stmts:
+                self.stmt(s, frame)
+        except ReturnSig:
+            pass
+        return frame
 
     def bind(self, frame, pat, v):
         k = pat["k"]
